@@ -62,6 +62,20 @@ class Acc:
                             'violations': summ['violations'] if summ else 0,
                             'exhaustive_within_bounds': exhaustive})
 
+    def add_traces(self, name, tv):
+        self.states += tv['st'].get('distinct', 0)
+        self.transitions += tv['st'].get('generated', 0)
+        self.traces += tv['accepted']
+        self.cases += tv['events']
+        self.pinned += tv['pinned']
+        self.violations += tv['violations']
+        self.violations_total += len(tv['violations'])
+        self.exhaustive = False
+        self.stages.append({'stage': name, 'events_recorded_from_real_code': tv['events'],
+                            'events_accepted_by_tlc': tv['accepted'], 'events_rejected': len(tv['violations']),
+                            'events_skipped_outside_small_decimal_model': tv['skipped'],
+                            'tlc_distinct_states': tv['st'].get('distinct', 0), 'tlc_wall_s': tv['st'].get('wall_s')})
+
     def result(self, rule, extra=None, level='model_checking', assumptions=None):
         cov = {
             'states': self.states, 'transitions': self.transitions,
@@ -125,6 +139,9 @@ def c01(ctx, api):
                                          surface_cfg(6, 'C01'),
                                          simulate=sim, timeout=1200)
     acc.add('GenSurface -simulate depth<=6', st, summ, exhaustive=False)
+    tv = api['run_trace_validation'](ctx, 'traces', 6000 if thorough else 1500, ctx['seed'])
+    acc.add_traces('trace validation: the compliance corpus and randomly grown expressions/documents run through the real Search, '
+                   'every recorded outcome checked by TLC against Admissible(expr, doc)', tv)
     return acc.result(RULE_PINNED, extra={'bounds': {'bfs_depth': depth, 'pool_documents': 15}})
 
 
@@ -232,6 +249,10 @@ def c02(ctx, api):
                                          timeout=3000)
     acc.add('GenCall: every function x 0..max+1 arguments x pool tuples (pool 21 values + 3 references; %d from the 3rd argument)'
             % (15 if thorough else 9), st, summ)
+    st, summ = api['run_tlc_to_harness'](ctx, 'sort', 'GenSort',
+                                         cfg(constants={'Emit': 'TRUE', 'Prop': '"C02"', 'Lengths': '{0, 1, 3, 13, 20, 40}',
+                                                        'Seeds': '{%d}' % ctx['seed']}), timeout=3000)
+    acc.add('GenSort: sort_by / max_by / min_by / sort / max / min on arrays beyond the pool sizes (stability, extremal elements)', st, summ)
     return acc.result(RULE_PINNED, extra={'model_checks': ['UnknownFunction', 'ArityIffOutOfRange', 'NoArityWhenInRange',
                                                            'TypeErrorIffOutsideSignature', 'OnlyDynamicCategories']})
 
@@ -330,14 +351,17 @@ def c05(ctx, api):
 def c06(ctx, api):
     acc = Acc()
     thorough = ctx['tier'] == 'thorough'
-    consts = {'Emit': 'TRUE', 'Prop': '"C06"', 'MaxCalls': 3, 'MaxDocs': 4, 'NTexts': 8 if thorough else 6}
+    consts = {'Emit': 'TRUE', 'Prop': '"C06"', 'MaxCalls': 3, 'MaxDocs': 6, 'NTexts': 8 if thorough else 6}
     text = cfg(constants=consts, extra='PROPERTIES\n  Immutable')
     st, summ = api['run_tlc_to_harness'](ctx, 'api-bfs', 'API', text, timeout=3000)
-    acc.add('API.tla: every history of <= 3 calls over %d texts x 3 documents (+ fed-back results)' % consts['NTexts'], st, summ)
+    acc.add('API.tla: every history of <= 3 calls over %d texts x 4 documents (+ fed-back results)' % consts['NTexts'], st, summ)
+    consts = {'Emit': 'TRUE', 'Prop': '"C06"', 'MaxCalls': 2 if thorough else 1, 'MaxDocs': 6, 'NTexts': 72}
+    st, summ = api['run_tlc_to_harness'](ctx, 'api-wide', 'API', cfg(constants=consts), timeout=3000)
+    acc.add('API.tla: every history of <= %d call(s) over all 72 texts (every reordering function x every aliasing source)' % consts['MaxCalls'], st, summ)
     sim = {'num': 40 if thorough else 8, 'depth': 9, 'seed': ctx['seed']}
-    consts = {'Emit': 'TRUE', 'Prop': '"C06"', 'MaxCalls': 8, 'MaxDocs': 6, 'NTexts': 16}
+    consts = {'Emit': 'TRUE', 'Prop': '"C06"', 'MaxCalls': 8, 'MaxDocs': 7, 'NTexts': 72}
     st, summ = api['run_tlc_to_harness'](ctx, 'api-sim', 'API', cfg(constants=consts), simulate=sim, timeout=1500)
-    acc.add('API.tla -simulate: histories of <= 8 calls over 16 texts', st, summ, exhaustive=False)
+    acc.add('API.tla -simulate: histories of <= 8 calls over 72 texts', st, summ, exhaustive=False)
     return acc.result('cases are the reachable states (histories) of API.tla; each is replayed call by call into the real API with deep '
                       'snapshots of all documents (including spare slice capacity) and all earlier results; a history is non-trivial '
                       'when every step has a single admissible outcome',
@@ -349,7 +373,7 @@ def c06(ctx, api):
 def c07(ctx, api):
     acc = Acc()
     thorough = ctx['tier'] == 'thorough'
-    consts = {'Emit': 'TRUE', 'Prop': '"C07"', 'Gates': 3 if thorough else 2, 'NCallSets': 7 if thorough else 6,
+    consts = {'Emit': 'TRUE', 'Prop': '"C07"', 'Gates': 3 if thorough else 2, 'NCallSets': 8 if thorough else 7,
               'Rounds': 200 if thorough else 25}
     st, summ = api['run_tlc_to_harness'](ctx, 'conc', 'APIConc', cfg(constants=consts), timeout=3000,
                                          harness_args=['-timeout', '10s'])
@@ -384,7 +408,7 @@ def c08(ctx, api):
     st, summ = api['run_tlc_to_harness'](ctx, 'call', 'GenCall',
                                          cfg(constants={'Emit': 'TRUE', 'Prop': '"C08"', 'Small': 12 if thorough else 7}), timeout=3000)
     acc.add('GenCall: categories of all failing calls (arity / unknown / type / value)', st, summ)
-    consts = {'Emit': 'TRUE', 'Prop': '"C08"', 'MaxCalls': 3, 'MaxDocs': 4, 'NTexts': 16 if thorough else 10}
+    consts = {'Emit': 'TRUE', 'Prop': '"C08"', 'MaxCalls': 3, 'MaxDocs': 6, 'NTexts': 16 if thorough else 10}
     st, summ = api['run_tlc_to_harness'](ctx, 'api', 'API', cfg(constants=consts) if thorough else
                                          cfg(constants=dict(consts, MaxCalls=2)), timeout=3000)
     acc.add('API.tla histories: Compile reports static faults, a compiled Expression never does, one-shot Search reports them for every document', st, summ)
@@ -400,7 +424,7 @@ def c18(ctx, api):
     thorough = ctx['tier'] == 'thorough'
     st, summ = api['run_tlc_to_harness'](ctx, 'pipe', 'GenPipe', cfg(constants={'Emit': 'TRUE', 'Prop': '"C18"'}), timeout=3000)
     acc.add('GenPipe: 29 x 24 pairs (e1, e2) x 15 documents; results fed back as Go values', st, summ)
-    consts = {'Emit': 'TRUE', 'Prop': '"C18"', 'MaxCalls': 4 if thorough else 3, 'MaxDocs': 5, 'NTexts': 8 if thorough else 5}
+    consts = {'Emit': 'TRUE', 'Prop': '"C18"', 'MaxCalls': 4 if thorough else 3, 'MaxDocs': 6, 'NTexts': 8 if thorough else 5}
     st, summ = api['run_tlc_to_harness'](ctx, 'api', 'API', cfg(constants=consts), timeout=3000)
     acc.add('API.tla histories with FeedBack (a result becomes a document of later calls)', st, summ)
     return acc.result(RULE_PINNED + '; every successful result is also walked for non-JSON Go types and must survive json.Marshal/decode unchanged',
